@@ -1128,6 +1128,18 @@ fn gen_fields(d: &mut D, tr: &str, named: bool, magic: bool, max: usize) -> Vec<
                 }
             }
         }
+        // a name that is a pass-through field of *another* trait is an ordinary field here: its options are read and
+        // validated like any field's (`ident` and `attrs` are left out: the shared front end reads them for every trait)
+        if named && name.starts_with('f') && d.ratio(1, 8) {
+            let here: Vec<&str> = forwarded_names(tr).into_iter().chain(passthrough_names(tr)).collect();
+            let foreign: Vec<&str> = ["vis", "generics", "ty", "data", "discriminant", "fields", "bounds", "default"].into_iter().filter(|n| !here.contains(n)).collect();
+            if !foreign.is_empty() {
+                let n = *d.pick(&foreign);
+                if !used.iter().any(|u| u == n) {
+                    name = n.to_string();
+                }
+            }
+        }
         used.push(name.clone());
         out.push(FieldD {
             name: if named { Some(name) } else { None },
